@@ -358,7 +358,7 @@ def run(chk):
         rnd.shuffle(flat)
         return ("tsl", bounds, tiled_steps(bounds, flat, pad=rnd.choice([0, 0, 2])), rnd.choice([0, 0, 5]))
 
-    for _ in range(50 if quick else 500):
+    for _ in range(50 if quick else 4000):
         shape = tuple(rnd.choice([1, 2, 3, 4, 6, 8]) for _ in range(rnd.choice([1, 2, 2, 3])))
         if int(np.prod(shape)) > 96:
             continue
